@@ -68,7 +68,7 @@ CLAIMS = {
             "order of blocks, entries or lines. That lark hands a permuted text over as the permuted item list is decided by the bounded "
             "stand-in (all permutations of small models).",
             "lark's LALR tables not under contract"),
-    "C11": ("proof", "Proved on instances (exhaustive over sympy's six relational operators; And/Or 2..4 operands; Piecewise 2..4 branches): the .ode "
+    "C11": ("other", "Nothing here is proved for all inputs. Contract instances (bounded) (exhaustive over sympy's six relational operators; And/Or 2..4 operands; Piecewise 2..4 branches): the .ode "
             "printer overrides spell only functions of the grammar (read mechanically from ode.lark), != is written Not(Eq()), E is written exp(1). "
             "The writer glue (blocks, ScalarParam) and closure of sympy's normal forms under the grammar are decided by the bounded stand-in "
             "(save, reload, compare numerically).",
@@ -82,7 +82,7 @@ CLAIMS = {
             "missing_variables[idx] with the published index; missing_values writes each requested name to its requested slot; the python and C "
             "templates name the function missing_index. Bounded stand-in: split every component, feed sub-models each other's values.",
             "C backend cannot use missing variables at all (known finding); composition theorem L3 not machine-proved"),
-    "C14": ("proof", "Proved on instances: every gotranx printer override emits only elementwise numpy calls (no if-expression, no and/or/not, no "
+    "C14": ("other", "Contract instances (bounded; only the shape-prologue text is proved for all inputs): every gotranx printer override emits only elementwise numpy calls (no if-expression, no and/or/not, no "
             "tuple stacking) - And/Or 2..4 operands, Not, sign, Equality, Piecewise 2..4 branches; _shape_info text per Shape member; python "
             "method template allocates before the body. Bounded stand-in: (n_states, N) batches vs column-by-column.",
             "inherited sympy printer methods assumed; bounded in operand count"),
@@ -139,8 +139,12 @@ def main():
             "engine": "pyvc",
             "level_claimed": {"category": cat, "text": text, "design_ref": f"DESIGN.md section 6 ({pid}) and section 13"},
             "level_note": TRUST + note,
-            "technique": "contract-based deductive verification: sidecar contracts on the real functions, own ast->SMT VC generator, z3 + cvc5; "
-                         "bounded oracle stand-in (labelled bounded) for replay and for clauses outside every contract",
+            "technique": ("contract instances on the real printer overrides (bodies executed by the VC generator's interpreter on hole strings, result "
+                          "checked by CPython ast / the grammar's terminal list) + class frame; labelled bounded, nothing counted as proved; "
+                          "bounded oracle stand-in for everything else"
+                          if cat == "other" else
+                          "contract-based deductive verification: sidecar contracts on the real functions, own ast->SMT VC generator, z3 + cvc5; "
+                          "bounded oracle stand-in (labelled bounded) for replay and for clauses outside every contract"),
         })
     m = {
         "version": 1,
